@@ -111,6 +111,7 @@ impl Callback for UnspentCsvDump {
                 .as_bytes(),
             )?;
         }
+        self.writer.flush()?;
 
         fs::rename(
             self.dump_folder.as_path().join("unspent.csv.tmp"),
